@@ -182,35 +182,55 @@ func runC19(c *Ctx) {
 			// R4
 			ta := stored["textAttrs"]
 			why, good := "textAttrs not set", false
-			if call, ok := ta.(*ssa.Call); ok {
-				if b, isB := call.Call.Value.(*ssa.Builtin); isB && b.Name() == "append" {
-					first := call.Call.Args[0]
-					switch x := first.(type) {
-					case *ssa.Call:
-						n := core.CalleeName(&x.Call)
-						if n == "slices.Clip" || n == "slices.Clone" {
-							why, good = n+" before append", true
-						} else {
-							why = "append onto the result of " + n
-						}
-					case *ssa.Slice:
-						if x.Max != nil {
-							why, good = "three-index slice (capacity clipped)", true
-						} else {
-							why = "append onto a plain reslice of the parent's attributes"
-						}
-					case *ssa.MakeSlice:
-						why, good = "fresh slice", true
-					case *ssa.Const:
-						why, good = "append onto nil", true
-					default:
-						if name, _, ok := core.IsLoadOfField(first); ok && name == "textAttrs" {
-							why = "append(h.textAttrs, ...) may write into spare capacity shared with the parent and with sibling handlers"
-						}
-					}
+			// the backing array of the stored slice is not shared with the parent:
+			// append onto a base that is itself unshared (recursively)
+			var unshared func(v ssa.Value, depth int) (string, bool)
+			unshared = func(v ssa.Value, depth int) (string, bool) {
+				if depth > 6 {
+					return "append chain too long", false
 				}
-			} else if call, ok := ta.(*ssa.Call); ok && strings.HasPrefix(core.CalleeName(&call.Call), "slices.Concat") {
-				why, good = "slices.Concat allocates", true
+				switch x := v.(type) {
+				case *ssa.MakeSlice:
+					return "fresh slice", true
+				case *ssa.Const:
+					return "nil slice", x.IsNil()
+				case *ssa.Slice:
+					if x.Max != nil {
+						return "three-index slice (capacity clipped)", true
+					}
+					if w, ok := unshared(x.X, depth+1); ok {
+						return "reslice of " + w, true
+					}
+					return "append onto a plain reslice of the parent's attributes", false
+				case *ssa.Call:
+					if b, isB := x.Call.Value.(*ssa.Builtin); isB && b.Name() == "append" {
+						w, ok := unshared(x.Call.Args[0], depth+1)
+						if ok {
+							return "append onto " + w, true
+						}
+						return w, false
+					}
+					n := core.CalleeName(&x.Call)
+					if n == "slices.Clip" || n == "slices.Clone" || strings.HasPrefix(n, "slices.Concat") {
+						return n + " (no spare capacity shared)", true
+					}
+					return "append onto the result of " + n, false
+				}
+				if name, _, ok := core.IsLoadOfField(v); ok && name == "textAttrs" {
+					return "append(h.textAttrs, ...) may write into spare capacity shared with the parent and with sibling handlers", false
+				}
+				return "unrecognised base " + core.Describe(v), false
+			}
+			if ta != nil {
+				if call, ok := ta.(*ssa.Call); ok {
+					if b, isB := call.Call.Value.(*ssa.Builtin); isB && b.Name() == "append" {
+						why, good = unshared(call.Call.Args[0], 0)
+					} else {
+						why, good = unshared(ta, 0)
+					}
+				} else {
+					why, good = unshared(ta, 0)
+				}
 			}
 			c.check(good, "C19.attrs-isolated", wa, "derived.textAttrs does not share spare capacity with the parent", nil, why)
 			// accumulation: the derived attributes are the parent's followed by the new ones
@@ -481,18 +501,42 @@ func runC19(c *Ctx) {
 			if name, _, ok := core.IsLoadOfField(mkCall.Call.Args[0]); ok && name == "Level" {
 				okLvl = true
 			}
-			if sl, ok := mkCall.Call.Args[1].(*ssa.Slice); ok && sl.Low == nil {
-				if b, ok := sl.High.(*ssa.BinOp); ok && b.Op == token.SUB {
-					if k, isK := core.ConstInt(b.Y); isK && k == 1 {
-						src := core.Unwrap(sl.X)
-						if bc, ok := src.(*ssa.Call); ok && core.CalleeName(&bc.Call) == "(*bytes.Buffer).Bytes" {
-							if name, base, ok := core.IsLoadOfField(bc.Call.Args[0]); ok && name == "buffer" && get != nil && base == ssa.Value(get) {
-								okTxt = true
-							}
-						}
-					}
+			// every text that may arrive (phis of an inlined helper included) is the
+			// pooled buffer's bytes minus the last one; a nil text arrives only
+			// together with a non-nil error, under which the message is not built
+			isCut := func(v ssa.Value) bool {
+				v = core.Unwrap(v)
+				sl, ok := v.(*ssa.Slice)
+				if !ok || sl.Low != nil {
+					return false
+				}
+				b, ok := sl.High.(*ssa.BinOp)
+				if !ok || b.Op != token.SUB {
+					return false
+				}
+				if k, isK := core.ConstInt(b.Y); !isK || k != 1 {
+					return false
+				}
+				bc, ok := core.Unwrap(sl.X).(*ssa.Call)
+				if !ok || core.CalleeName(&bc.Call) != "(*bytes.Buffer).Bytes" {
+					return false
+				}
+				name, base, ok := core.IsLoadOfField(bc.Call.Args[0])
+				return ok && name == "buffer" && get != nil && base == ssa.Value(get)
+			}
+			hf := core.Facts(h)
+			nCut := 0
+			okTxt = true
+			for _, lf := range hf.Leaves(mkCall.Call.Args[1], mkCall) {
+				switch {
+				case isCut(lf.V):
+					nCut++
+				case core.IsNilConst(lf.V) && lf.From != nil && nilTextOnlyWithError(hf, mkCall, lf.From):
+				default:
+					okTxt = false
 				}
 			}
+			okTxt = okTxt && nCut > 0
 		}
 		c.check(okData && okLvl && okTxt, "C19.message", h, "Encode(newJSONHybridMessage(r.Level, pooled text minus its last byte))", enc, "the message is the TextHandler line without the trailing newline")
 		// AddAttrs(h.textAttrs...) before the text handler runs
@@ -522,15 +566,38 @@ func runC19(c *Ctx) {
 		if add != nil && th != nil && len(h.Params) >= 3 {
 			cell, isAl := add.Call.Args[0].(*ssa.Alloc)
 			if isAl {
-				inits := 0
-				fromParam := false
-				for _, r := range core.Refs(cell) {
-					if st, isSt := r.(*ssa.Store); isSt && st.Addr == ssa.Value(cell) {
-						inits++
-						fromParam = st.Val == ssa.Value(h.Params[2])
+				// the cell holds the parameter r, directly or through whole-value
+				// copies (a by-value helper parameter)
+				var holdsParam func(cell *ssa.Alloc, depth int) bool
+				holdsParam = func(cell *ssa.Alloc, depth int) bool {
+					inits := 0
+					var val ssa.Value
+					for _, r := range core.Refs(cell) {
+						if st, isSt := r.(*ssa.Store); isSt && st.Addr == ssa.Value(cell) {
+							inits++
+							val = st.Val
+						}
 					}
+					if inits != 1 || depth > 3 {
+						return false
+					}
+					if val == ssa.Value(h.Params[2]) {
+						return true
+					}
+					if ld, isLd := val.(*ssa.UnOp); isLd && ld.Op == token.MUL {
+						if src, isA := ld.X.(*ssa.Alloc); isA {
+							// the source must not have been changed before the copy
+							for _, r := range core.Refs(src) {
+								if call, isC := r.(*ssa.Call); isC && core.Dominates(call, ld) {
+									return false
+								}
+							}
+							return holdsParam(src, depth+1)
+						}
+					}
+					return false
 				}
-				if ld, isLd := th.Call.Args[2].(*ssa.UnOp); isLd && ld.Op == token.MUL && ld.X == ssa.Value(cell) && inits == 1 && fromParam {
+				if ld, isLd := th.Call.Args[2].(*ssa.UnOp); isLd && ld.Op == token.MUL && ld.X == ssa.Value(cell) && holdsParam(cell, 0) {
 					okRec = true
 				}
 			}
@@ -639,4 +706,44 @@ func evalCmpAt(cond ssa.Value, v ssa.Value, k int64) (bool, bool) {
 		return false, false
 	}
 	return r == truth, true
+}
+
+// nilTextOnlyWithError: the nil text arrives from predecessor `from` of a join
+// where an error phi takes a non-nil value on the same edge, and the message
+// constructor runs only when that error is nil.
+func nilTextOnlyWithError(fs *core.FactSet, mk *ssa.Call, from *ssa.BasicBlock) bool {
+	for _, sc := range from.Succs {
+		for _, in := range sc.Instrs {
+			ephi, ok := in.(*ssa.Phi)
+			if !ok {
+				break
+			}
+			if !types.Implements(ephi.Type(), errorIface()) && ephi.Type().String() != "error" {
+				continue
+			}
+			for i, p := range sc.Preds {
+				if p != from || core.IsNilConst(ephi.Edges[i]) {
+					continue
+				}
+				// mk is reached only with ephi == nil
+				for _, g := range fs.At(mk.Block()) {
+					cond, truth := core.StripNot(g.Cond, g.Truth)
+					bo, ok := cond.(*ssa.BinOp)
+					if !ok || (bo.Op != token.EQL && bo.Op != token.NEQ) {
+						continue
+					}
+					if (core.LoadSource(bo.X) == ssa.Value(ephi) && core.IsNilConst(bo.Y)) || (core.LoadSource(bo.Y) == ssa.Value(ephi) && core.IsNilConst(bo.X)) {
+						if (bo.Op == token.EQL) == truth {
+							return true
+						}
+					}
+				}
+			}
+		}
+	}
+	return false
+}
+
+func errorIface() *types.Interface {
+	return types.Universe.Lookup("error").Type().Underlying().(*types.Interface)
 }
